@@ -174,8 +174,14 @@ def detected(ctx, res):
     if not res.printed:
         raise tlc.MachineryError("probe histories: no answer from CfgTrace")
     p = res.printed[0]
-    ctx.note("deviations_detected_in_tree", sorted(p["asis"]) if p["probe"] == "ok" else "no combination of named deviations reproduces the probe histories")
-    return sorted(p["asis"])
+    found = sorted(p["asis"])
+    ctx.note("deviations_detected_in_tree", found if p["probe"] == "ok" else "no combination of named deviations reproduces the probe histories")
+    # only deviations recorded with status "known" may explain a failed clause: a repaired ("fixed") defect that
+    # shows up again is not part of the model of today's code, so whatever it breaks is a VIOLATION
+    listed = set(k.get("key") for k in ctx.known)
+    allowed = [d for d in found if KNOWN.get(d) in listed]
+    ctx.note("deviations_accepted_for_attribution", allowed)
+    return allowed
 
 
 def run_replay(ctx):
